@@ -98,16 +98,16 @@ def _ufn(base, mode, negate):
             if mut == 'keep-clear':
                 del old[:]
             else:
-                old[:] = [bytes(value)] * (len(old) + 1)
+                old[:] = [bytes(value)] * min(len(old) + 1, 64)
         del kept[:]
         if mut == 'clear':
             del args[:]
         elif mut == 'pop':
             if args:
                 args.pop()
-        elif mut == 'append':
+        elif mut == 'append' and len(args) < 64:
             args.append(b'\x08\x02zz')
-        elif mut == 'append-value':
+        elif mut == 'append-value' and len(args) < 64:
             args.append(bytes(value))
         elif mut == 'sort':
             args.sort(key=lambda a: b'' if a is None else bytes(a), reverse=True)
@@ -118,7 +118,8 @@ def _ufn(base, mode, negate):
         elif mut == 'fill-value':
             args[:] = [bytes(value)] * len(args)
         elif mut == 'double':
-            args.extend(list(args))
+            if len(args) < 64:
+                args.extend(list(args))
         elif mut.startswith('keep-'):
             kept.append(args)
         ret = mode['ret']
